@@ -337,7 +337,13 @@ func open(ctx context.Context, h *Handler, acked bool, s *xmpp.Session, start st
 	// Register the stream before asking for it: the other side may start
 	// sending data as soon as it has accepted.
 	conn := newConn(h, s, iq, false, MaxBufferSize)
-	h.addStream(sid, conn)
+	if !h.addStream(sid, conn) {
+		// The session id names a stream that is live on this handler (for
+		// instance one that the other side opened): taking its place in the
+		// routing table, and giving the place up again if the request is
+		// refused, would cut that stream off from its data.
+		return nil, errors.New("ibb: a stream with the session id " + strconv.Quote(sid) + " is already open")
+	}
 
 	// Only a result means that the other side accepted the stream; error
 	// replies are returned as errors.
@@ -349,14 +355,20 @@ func open(ctx context.Context, h *Handler, acked bool, s *xmpp.Session, start st
 	return conn, nil
 }
 
-func (h *Handler) addStream(sid string, conn *Conn) {
+// addStream registers conn under sid unless a stream is registered there
+// already.
+func (h *Handler) addStream(sid string, conn *Conn) bool {
 	h.mu.Lock()
 	defer h.mu.Unlock()
 
 	if h.streams == nil {
 		h.streams = make(map[string]*Conn)
 	}
+	if _, inUse := h.streams[sid]; inUse {
+		return false
+	}
 	h.streams[sid] = conn
+	return true
 }
 
 func (h *Handler) rmStream(sid string) {
